@@ -168,12 +168,12 @@ void Dot11ManagementFrame::power_capability(uint8_t min_power, uint8_t max_power
 
 void Dot11ManagementFrame::supported_channels(const channels_type& new_channels) {
     vector<uint8_t> buffer(new_channels.size() * 2);
-    uint8_t* ptr = &buffer[0];
+    uint8_t* ptr = buffer.empty() ? 0 : &buffer[0];
     for (channels_type::const_iterator it = new_channels.begin(); it != new_channels.end(); ++it) {
         *(ptr++) = it->first;
         *(ptr++) = it->second;
     }
-    add_tagged_option(SUPPORTED_CHANNELS, static_cast<uint8_t>(buffer.size()), &buffer[0]);
+    add_tagged_option(SUPPORTED_CHANNELS, static_cast<uint8_t>(buffer.size()), ptr ? &buffer[0] : 0);
 }
 
 void Dot11ManagementFrame::edca_parameter_set(uint32_t ac_be, uint32_t ac_bk, uint32_t ac_vi, uint32_t ac_vo) {
@@ -189,7 +189,7 @@ void Dot11ManagementFrame::edca_parameter_set(uint32_t ac_be, uint32_t ac_bk, ui
 }
 
 void Dot11ManagementFrame::request_information(const request_info_type elements) {
-    add_tagged_option(REQUEST_INFORMATION, static_cast<uint8_t>(elements.size()), &elements[0]);
+    add_tagged_option(REQUEST_INFORMATION, static_cast<uint8_t>(elements.size()), elements.empty() ? 0 : &elements[0]);
 }
 
 void Dot11ManagementFrame::fh_parameter_set(const fh_params_set& fh_params) {
